@@ -433,6 +433,29 @@ func Hostile(c *spec.Case, r *rand.Rand, n int) []string {
 			}
 			return false
 		}},
+		{"stale-gang-in-missing-queue", func() bool {
+			// a gang below its minimum with running pods (stale) whose queue does not exist
+			for _, pg := range o.PodGroups {
+				running := 0
+				for _, p := range o.Pods {
+					if p.Annotations["pod-group-name"] == pg.Name && p.Spec.NodeName != "" && p.DeletionTimestamp == nil && p.Status.Phase == v1.PodRunning {
+						running++
+					}
+				}
+				if running == 0 || r.IntN(2) == 0 {
+					continue
+				}
+				pg.Spec.MinMember = int32(running + 2)
+				pg.Spec.SubGroups = nil
+				pg.Spec.Queue = []string{"no-such-queue", ""}[pick(2)]
+				if pg.Annotations == nil {
+					pg.Annotations = map[string]string{}
+				}
+				pg.Annotations["kai.scheduler/stale-podgroup-timestamp"] = "2020-01-01T00:00:00Z"
+				return true
+			}
+			return false
+		}},
 		{"priority-classes-missing", func() bool {
 			o.PriorityClasses = nil
 			return true
